@@ -27,7 +27,8 @@ func relFile(from, to string) string {
 	return "./" + r
 }
 
-func c05Materialize(wd string, nodes map[int]map[string]interface{}, files map[int]string) (string, error) {
+// ownFile: a base in the same file (other than the main file) is referenced with an explicit `file:` naming that very file.
+func c05Materialize(wd string, nodes map[int]map[string]interface{}, files map[int]string, ownFile ...bool) (string, error) {
 	byFile := map[int]map[string]interface{}{}
 	for _, nd := range nodes {
 		f := asInt(nd["file"])
@@ -43,8 +44,14 @@ func c05Materialize(wd string, nodes map[int]map[string]interface{}, files map[i
 		case ext > 0:
 			tgt := nodes[ext]
 			e := map[string]interface{}{"service": asStr(tgt["name"])}
+			own := len(ownFile) > 0 && ownFile[0]
 			if tf := asInt(tgt["file"]); tf != f {
 				e["file"] = relFile(files[f], files[tf])
+			} else if own && f != 1 {
+				e["file"] = relFile(files[f], files[f])
+			}
+			if fs, ok := e["file"].(string); ok && own { // written without the leading ./ (the same file is then named by the same text from everywhere)
+				e["file"] = strings.TrimPrefix(fs, "./")
 			}
 			svc["extends"] = e
 		case ext == -1:
@@ -234,7 +241,7 @@ func C05(c *core.Ctx) {
 		mkdirs(wd)
 		defer os.RemoveAll(wd)
 		nodes := nodesOf(cs["nodes"])
-		mainDoc, err := c05Materialize(wd, nodes, c05Files)
+		mainDoc, err := c05Materialize(wd, nodes, c05Files, idx%2 == 0)
 		if err != nil {
 			return err
 		}
